@@ -28,12 +28,13 @@ def _grid_rv(tier, rng):
             ([7e6, 1e3, -2e3], [7.4e3, 10, 5]), ([-6142438.668, 3492467.560, -25767.25680], [505.8479685, 942.7809215, 7435.922231]),
             ([7e6, 0, 0], [0, -7.5e3, 0]), ([1.5e11, 2e10, 1e9], [-3e3, 2.9e4, 10])]
     for r, v in base:
-        yield {f"r{i}": r[i] for i in range(3)} | {f"v{i}": v[i] for i in range(3)} | {"frame": 0} | {f"d{i}": [0.3, -1.2, 2.0][i] for i in range(3)}
+        yield {f"r{i}": r[i] for i in range(3)} | {f"v{i}": v[i] for i in range(3)} | {"frame": 0, "spelling": int(abs(v[1])) % 3} | {f"d{i}": [0.3, -1.2, 2.0][i] for i in range(3)}
     for k in range(20 if tier == "quick" else 300):
         d = {f"r{i}": rng.uniform(-1, 1) * 7e6 for i in range(3)}
         d.update({f"v{i}": rng.uniform(-1, 1) * 7e3 for i in range(3)})
         d.update({f"d{i}": rng.uniform(-3, 3) for i in range(3)})
         d["frame"] = k % 3
+        d["spelling"] = (k // 3) % 3
         yield d
 
 
@@ -99,6 +100,8 @@ def _man_contract(kind):
         r, v = c.vec("r", 3), c.vec("v", 3)
         d = c.vec("d", 3)
         tag = c.choice("frame", ["QSW", "TNW", None])
+        # the tag as the caller spells it (the documented spellings are upper case; the constructors accept any case)
+        spelled = tag if tag is None else c.choice("spelling", [tag, tag.lower(), tag.capitalize()])
         if c.symbolic:
             M = c.mat("M", 3, 3)
             c.require(c.all_eq(M @ M.T, I3), "callee.post.orthonormal")
@@ -110,10 +113,10 @@ def _man_contract(kind):
             w = c.world(stubs={f"{L}:to_local": stub})
             orb = SymStateVector(list(r) + list(v), date=SymDate(0), form="cartesian", frame=None)
             if kind == "dv":
-                man = w.obj(f"{MAN}:ImpulsiveMan", date=SymDate(0), _dv=d, frame=tag, comment=None)
+                man = w.new(f"{MAN}:ImpulsiveMan", SymDate(0), d, frame=spelled)     # through the real constructor
                 out = man.dv(orb)
             else:
-                man = w.obj(f"{MAN}:ContinuousMan", _accel=d, frame=tag, comment=None)
+                man = w.new(f"{MAN}:ContinuousMan", SymDate(0), SymTimedelta(c.real("duration", lo=0)), accel=d, frame=spelled)
                 out = man.accel(orb)
             if tag is None:
                 c.ensure("inertial.unchanged", c.all_eq(out, d))
@@ -132,7 +135,7 @@ def _man_contract(kind):
             x = np.concatenate([r, v]).astype(float)
             c.require(np.linalg.norm(np.cross(x[:3], x[3:])) > 0)
             orb = StateVector(x, Date(58000), "cartesian", fr.EME2000)
-            man = ImpulsiveMan(Date(58000), d, frame=tag) if kind == "dv" else ContinuousMan(Date(58000), timedelta(seconds=10), accel=d, frame=tag)
+            man = ImpulsiveMan(Date(58000), d, frame=spelled) if kind == "dv" else ContinuousMan(Date(58000), timedelta(seconds=10), accel=d, frame=spelled)
             out = man.dv(orb) if kind == "dv" else man.accel(orb)
             if tag is None:
                 c.ensure("inertial.unchanged", c.all_eq(out, d))
